@@ -504,7 +504,7 @@ fn main() {
          CNAME{a.z.,b.z.} NS{n1.o.,n2.o.} SOA serial {cur-1,cur,cur+1,cur+2,cur+2^31-1,cur+2^31}, TTL {0,60}. M1 = (<=1 prerequisite atom) x \
          (<=1 update atom) over every form of RFC 2136 tables 3.2.4 / 3.4.2.6 plus malformed variants; M1-core / M1-serial = the same product \
          over sub-alphabets; M2 = (<=2 prerequisites) x (<=3 updates) in every order over a sub-alphabet. Roots = 4 initial zones at serial 1 \
-         and a zone at serials 2^31-1 and 2^32-2. BFS: full M1 from every state up to the tier's full depth, M1-core below it to the tier's \
+         and a zone at serials 0, 2^31-1 and 2^32-2. BFS: full M1 from every state up to the tier's full depth, M1-core below it to the tier's \
          core depth, M2 as one further step from every state up to its depth; canonical key = zone content + empty RRset keys + serial \
          delta; only conforming successors are expanded. Oracle per transition: vref::update (RFC 2136 3.2/3.4 pseudocode, RFC 1982) on the \
          raw request bytes and the implementation's pre-state: rcode in the acceptable set, rejected => unchanged, accepted => zone equals an \
